@@ -72,9 +72,9 @@ macro_rules! split_instance {
     };
 }
 
-// @verif prop=C12 id=O12.6/4 tier=quick harness=c12_fastq_definition_split_between_cr_and_lf unwind=8 stubs="memchr::memchr3->first-occurrence loop (cfg(kani) source shim); ChunkyLines::read_until = plain loop with the std contract" bound="FASTQ definition line '@' n0 n1 CR LF followed by the sequence (2 symbolic name bytes, no description): first fill_buf window = the 4 bytes up to and including CR, second = the rest (split between CR and LF; concrete split, R13): name == n0 n1 (no terminator byte), description empty, exactly the line consumed" fns="fastq::io::reader::record::definition::read_definition,read_u8,read_line"
+// @verif prop=C12 id=O12.6/4 tier=quick harness=c12_fastq_definition_split_between_cr_and_lf unwind=8 timeout=900 stubs="memchr::memchr3->first-occurrence loop (cfg(kani) source shim); ChunkyLines::read_until = plain loop with the std contract" bound="FASTQ definition line '@' n0 n1 CR LF followed by the sequence (2 symbolic name bytes, no description): first fill_buf window = the 4 bytes up to and including CR, second = the rest (split between CR and LF; concrete split, R13): name == n0 n1 (no terminator byte), description empty, exactly the line consumed" fns="fastq::io::reader::record::definition::read_definition,read_u8,read_line"
 split_instance!(c12_fastq_definition_split_between_cr_and_lf, true, 4);
-// @verif prop=C12 id=O12.6/3 tier=quick harness=c12_fastq_definition_split_before_cr unwind=8 stubs="memchr::memchr3->first-occurrence loop (cfg(kani) source shim); ChunkyLines::read_until = plain loop with the std contract" bound="as O12.6/4, split after the name (before CR)" fns="fastq::io::reader::record::definition::read_definition,read_u8,read_line"
+// @verif prop=C12 id=O12.6/3 tier=thorough harness=c12_fastq_definition_split_before_cr unwind=8 stubs="memchr::memchr3->first-occurrence loop (cfg(kani) source shim); ChunkyLines::read_until = plain loop with the std contract" bound="as O12.6/4, split after the name (before CR)" fns="fastq::io::reader::record::definition::read_definition,read_u8,read_line"
 split_instance!(c12_fastq_definition_split_before_cr, true, 3);
 // @verif prop=C12 id=O12.6/1 tier=thorough harness=c12_fastq_definition_split_after_prefix unwind=8 stubs="memchr::memchr3->first-occurrence loop (cfg(kani) source shim); ChunkyLines::read_until = plain loop with the std contract" bound="as O12.6/4, split after '@'" fns="fastq::io::reader::record::definition::read_definition,read_u8,read_line"
 split_instance!(c12_fastq_definition_split_after_prefix, true, 1);
